@@ -1,5 +1,6 @@
 import MuduoVerif.Proofs.MonitorQueue
 import MuduoVerif.Proofs.MonitorLatch
+import MuduoVerif.Proofs.ThreadSkelTie
 /-!
 # C14 — blocking queues and latch: FIFO, bounded, nothing lost, nobody left waiting
 
@@ -154,5 +155,64 @@ example : ∃ ls, LReach (linit 1 latchProg []) ls ∧ ls.count ≤ 0 ∧ ls.ne.
     rw [hr] at h
     simp only [Option.map_some, Option.some.injEq, Prod.mk.injEq] at h
     exact ⟨s, runL_reach hr, by rw [h.1]; decide, h.2.1, h.2.2⟩
+
+end MuduoVerif.C14
+
+namespace MuduoVerif.C14
+
+/-! ## the primitives the monitors are built from (`Mutex.h`, `Condition.h`, `Condition.cc`, `CountDownLatch.cc`) -/
+
+/-- **primitives_tied**: the atomic steps of `Model/Monitor.lean` - `acq` / end of the guard's scope, `Mon.parkOn` +
+`Mon.enter` ("wait releases the mutex and parks; re-acquires before returning"), `WS.one`, `WS.all`, the latch
+operations - are what muduo's wrappers ask pthread for: the statement skeletons of `MutexLock` (constructor,
+destructor with its `holder_ == 0` assertion, `lock` = `pthread_mutex_lock` THEN the holder, `unlock` = the holder THEN
+`pthread_mutex_unlock`, `UnassignGuard`, `MutexLockGuard`), of `Condition` (`wait` = clear the holder;
+`pthread_cond_wait` on this condition and that mutex; assign the holder - `notify` = `pthread_cond_signal`,
+`notifyAll` = `pthread_cond_broadcast`, unconditionally - `waitForSeconds`) and of `CountDownLatch` (constructor,
+`wait`, `countDown`, `getCount`), re-extracted from /repo on every run (`Generated/ThreadSkel.lean`), are the declared
+ones (`Model/ThreadSkelDecl.lean`).  The semantics of the `pthread_*` functions themselves stays trusted. -/
+theorem primitives_tied :
+    (Gen.ThreadSkel.mutexCtor = ThreadSkel.Decl.mutexCtor ∧
+     Gen.ThreadSkel.mutexDtor = ThreadSkel.Decl.mutexDtor ∧
+     Gen.ThreadSkel.isLockedByThisThread = ThreadSkel.Decl.isLockedByThisThread ∧
+     Gen.ThreadSkel.assertLocked = ThreadSkel.Decl.assertLocked ∧
+     Gen.ThreadSkel.mutexLock = ThreadSkel.Decl.mutexLock ∧
+     Gen.ThreadSkel.mutexUnlock = ThreadSkel.Decl.mutexUnlock ∧
+     Gen.ThreadSkel.unassignHolder = ThreadSkel.Decl.unassignHolder ∧
+     Gen.ThreadSkel.assignHolder = ThreadSkel.Decl.assignHolder ∧
+     Gen.ThreadSkel.unassignGuardCtor = ThreadSkel.Decl.unassignGuardCtor ∧
+     Gen.ThreadSkel.unassignGuardDtor = ThreadSkel.Decl.unassignGuardDtor ∧
+     Gen.ThreadSkel.lockGuardCtor = ThreadSkel.Decl.lockGuardCtor ∧
+     Gen.ThreadSkel.lockGuardDtor = ThreadSkel.Decl.lockGuardDtor) ∧
+    (Gen.ThreadSkel.condCtor = ThreadSkel.Decl.condCtor ∧
+     Gen.ThreadSkel.condDtor = ThreadSkel.Decl.condDtor ∧
+     Gen.ThreadSkel.condWait = ThreadSkel.Decl.condWait ∧
+     Gen.ThreadSkel.condNotify = ThreadSkel.Decl.condNotify ∧
+     Gen.ThreadSkel.condNotifyAll = ThreadSkel.Decl.condNotifyAll ∧
+     Gen.ThreadSkel.condWaitForSeconds = ThreadSkel.Decl.condWaitForSeconds) ∧
+    (Gen.ThreadSkel.latchCtor = ThreadSkel.Decl.latchCtor ∧
+     Gen.ThreadSkel.latchWait = ThreadSkel.Decl.latchWait ∧
+     Gen.ThreadSkel.latchCountDown = ThreadSkel.Decl.latchCountDown ∧
+     Gen.ThreadSkel.latchGetCount = ThreadSkel.Decl.latchGetCount) :=
+  ⟨ThreadSkel.skeletons_agree.1, ThreadSkel.skeletons_agree.2.1, ThreadSkel.skeletons_agree.2.2.1⟩
+
+/-- **timed_wait_deadline_valid**: the absolute deadline `Condition::waitForSeconds` hands to `pthread_cond_timedwait`
+(`Gen.ThreadSkel.waitForSecondsDeadline`: the two assignments of the function, translated; `ns` is
+`static_cast<int64_t>(seconds * kNanoSecondsPerSecond)`) is, for every valid clock reading (`0 ≤ tv_nsec < 10^9`) and
+every wait `ns ≥ 0`, a valid `timespec` (`0 ≤ tv_nsec < 10^9`) that is exactly `ns` nanoseconds after the reading: no
+time is lost in the split into seconds and nanoseconds, the carry goes into `tv_sec`.  The hypothesis `ns ≥ 0` is not
+checked by the code and is needed: `ThreadSkel.deadline_invalid_of_negative`. -/
+theorem timed_wait_deadline_valid (now : Gen.ThreadSkel.Timespec) (ns : Int)
+    (h0 : 0 ≤ now.tv_nsec) (h1 : now.tv_nsec < 1000000000) (hns : 0 ≤ ns) :
+    0 ≤ (Gen.ThreadSkel.waitForSecondsDeadline now ns).tv_nsec ∧
+    (Gen.ThreadSkel.waitForSecondsDeadline now ns).tv_nsec < 1000000000 ∧
+    (Gen.ThreadSkel.waitForSecondsDeadline now ns).tv_sec * 1000000000 +
+        (Gen.ThreadSkel.waitForSecondsDeadline now ns).tv_nsec =
+      now.tv_sec * 1000000000 + now.tv_nsec + ns :=
+  ThreadSkel.deadline_valid now ns h0 h1 hns
+
+/-- the hypotheses are satisfiable and the carry is real: 0.7 s past the second plus a wait of 2.5 s is 0.2 s past the
+third second after it -/
+example : Gen.ThreadSkel.waitForSecondsDeadline ⟨100, 700000000⟩ 2500000000 = ⟨103, 200000000⟩ := by decide
 
 end MuduoVerif.C14
